@@ -228,11 +228,35 @@ C06Clauses ==
        ClauseAt("ChiDomain", \A x \in XS : \A y \in YS : (Obs.chi_nan[loc][x + 1][y + 1] = 1) = ~OnClosed(x, y), loc)
 
 --------------------------------------------------------------------------
+(* C08 on the coordinates of the file: the adjacency READ FROM THE FILE'S INTEGERS with BOUT++'s meaning is the
+   adjacency the corner coordinates exhibit *)
+BoutNb(x, y) == IF T = "CORE" THEN BoutUp(Load(ObsT), x, y) ELSE BoutUpFile(Load(ObsT), x, y)
+SamePoint(P, lx, ly, Q2, mx, my) ==
+  /\ Near(P.R[lx + 1][ly + 1], Q2.R[mx + 1][my + 1], 20)
+  /\ Near(P.Z[lx + 1][ly + 1], Q2.Z[mx + 1][my + 1], 20)
+C08GridClauses ==
+  LET P == Obs.pos IN
+  /\ ClauseAt("SharedEdgeY", LoadOK(ObsT) => \A x \in XS : \A y \in YS :
+        LET u == BoutNb(x, y) IN
+        (u # -1 /\ u \in YS) =>
+           /\ SamePoint(P.upper_left_corners, x, y, P.corners, x, u)
+           /\ SamePoint(P.upper_right_corners, x, y, P.lower_right_corners, x, u)
+           /\ SamePoint(P.yhi, x, y, P.ylow, x, u), "y")
+  /\ ClauseAt("SharedEdgeX", \A x \in XS : \A y \in YS :
+        x + 1 \in XS =>
+           /\ SamePoint(P.lower_right_corners, x, y, P.corners, x + 1, y)
+           /\ SamePoint(P.upper_right_corners, x, y, P.upper_left_corners, x + 1, y)
+           /\ SamePoint(P.xhi, x, y, P.xlow, x + 1, y), "x")
+  /\ \A loc \in {"centre", "xlow", "ylow"} :
+       ClauseAt("ChiNaNOnOpen", \A x \in XS : \A y \in YS : (Obs.chi_nan[loc][x + 1][y + 1] = 1) = ~OnClosed(x, y), loc)
+
+--------------------------------------------------------------------------
 Observe ==
   /\ stage = "file"
   /\ CASE Obs.prop = "C01" -> C01Clauses
        [] Obs.prop = "C02" -> PairClauses
        [] Obs.prop = "C03" -> PairClauses /\ C03Extra
+       [] Obs.prop = "C08" -> C08GridClauses
        [] Obs.prop = "C05" -> C05Clauses
        [] Obs.prop = "C06" -> C06Clauses
        [] OTHER -> TRUE
